@@ -24,7 +24,9 @@ def _val(env, op):
 
 
 def eval_char_pred(body, ch):
-    return _eval_char_pred(body, ch, 2 if body.is_closure else 1)
+    # the character parameter (a closure's first parameter is its environment; `|scanner, ch| ..` has the char last)
+    idx = [k for k in range(1, body.arg_count + 1) if body.locals[k]['ty'] == 'char']
+    return _eval_char_pred(body, ch, idx[0] if len(idx) == 1 else (2 if body.is_closure else 1))
 
 
 def _eval_char_pred(body, ch, pidx, depth=0):
@@ -152,19 +154,32 @@ class TokRoles:
         import r_term
         self.tm = r_term.TermModel(prog, roles)
         adv_calls = [c for c in tn.live_calls if c.ruid in self.tm.char_adv]
-        # the dispatching advance: the one whose result feeds a switch in TOKEN-NEXT
+        # the dispatching advance: the one whose result feeds a switch in TOKEN-NEXT — or in the private scanner body
+        # TOKEN-NEXT delegates to (`next` = bookkeeping around `scan_token`)
+        chain = [(tn, None)]
+        if not adv_calls:
+            for c in tn.live_calls:
+                g = prog.by_id.get(c.ruid) if c.ruid else None
+                if g is not None and g.locals[0]['ty'] == tn.locals[0]['ty'] and [x for x in g.live_calls if x.ruid in self.tm.char_adv]:
+                    chain = [(tn, c), (g, None)]
+                    adv_calls = [x for x in g.live_calls if x.ruid in self.tm.char_adv]
+                    break
         self.dispatch_adv = adv_calls[0] if adv_calls else None
         # skipper: a local call on &mut self that dominates the dispatching advance and loops with an
         # advance guarded by a char predicate (given directly, or handed in as a fn / closure argument)
         if self.dispatch_adv:
-            for c in tn.live_calls:
-                if c.ruid and c is not self.dispatch_adv and tn.dominates(c.bb, self.dispatch_adv.bb) and c.bb != self.dispatch_adv.bb:
-                    g = prog.by_id[c.ruid]
-                    pred = self._skipper_pred(tn, c, 0)
-                    if pred is not None:
-                        self.skipper = (c, g)
-                        self.ws_pred = pred
-                        break
+            for body, upto in chain:
+                goal = upto if upto is not None else self.dispatch_adv
+                for c in body.live_calls:
+                    if c.ruid and c is not goal and body.dominates(c.bb, goal.bb) and c.bb != goal.bb:
+                        g = prog.by_id[c.ruid]
+                        pred = self._skipper_pred(body, c, 0)
+                        if pred is not None:
+                            self.skipper = (c, g)
+                            self.ws_pred = pred
+                            break
+                if self.skipper is not None:
+                    break
 
     def _skipper_pred(self, caller, c, depth):
         """the char predicate that guards the advance loop entered through call c (or None)"""
@@ -416,7 +431,7 @@ def rule_tspan(sm, roles):
     first = _rule_tspan(sm, roles, roles.token_bodies())
     if not any(o.status == 'violated' for o in first):
         return first
-    second = _rule_tspan(sm, roles, roles.token_bodies(views=True))
+    second = _rule_tspan(sm, roles, roles.token_bodies(views='ho'))
     if not any(o.status == 'violated' for o in second):
         for o in second:
             o.what += ' [read with combinator closures inlined]'
@@ -531,6 +546,37 @@ def _param_text_ok(sm, roles, b, pidx, s0, s1, agg_bb):
         cb = c.body
         to = single_origin(trace_operand(cb, c.args[pidx - 1], through_calls=THROUGH))
         st = single_origin(trace_operand(cb, c.args[o0.data - 1], through_calls=set()))
+        if to is not None and st is not None and to.kind == 'callres' and to.data.ruid is not None and not (st.kind == 'callres' and st.data.bb == to.data.bb):
+            # the scanner returns only the text and was itself *given* the start: `let atom = self.parse_var(start)`
+            # — the start handed on must be the very value the scanner sliced from
+            h = prog.by_id[to.data.ruid]
+            ho = single_origin(trace_local(h, 0, to.proj, through_calls=THROUGH))
+            if ho is None or ho.kind != 'callres' or (ho.data.rdef or '') != r_slice.STR_INDEX:
+                # ... possibly through a value helper (`self.text_from(start)`)
+                hv = prog.view(h, keep=lambda g: g.is_pub or g.locals[0]['ty'] in ('usize', 'bool', 'char') or not (g.arg_count >= 1 and g.locals[1]['ty'].startswith('&' + (roles.tok_name or '\0'))), tag='tspan-h')
+                ho = single_origin(trace_local(hv, 0, to.proj, through_calls=THROUGH))
+                h = hv
+            if ho is None or ho.kind != 'callres' or (ho.data.rdef or '') != r_slice.STR_INDEX:
+                return '%s does not return a slice of the input as text' % h.name
+            rb = r_slice.range_bounds(h, ho.data)
+            if rb is None or rb[0] is None or rb[1] is None or not sm._is_self_field(h, ho.data.args[0], sm.input_idx):
+                return '%s: text is not input[lo..hi]' % h.name
+            lo = single_origin(trace_operand(h, rb[0], through_calls=set()))
+            if lo is None or lo.kind != 'param' or lo.proj or lo.data - 1 >= len(to.data.args):
+                return '%s: the text does not start at a position it was given' % h.name
+            given = trace_operand(cb, to.data.args[lo.data - 1], through_calls=set())
+            here = trace_operand(cb, c.args[o0.data - 1], through_calls=set())
+            if {(o.kind, o.key()[1], o.proj) for o in given} != {(o.kind, o.key()[1], o.proj) for o in here}:
+                return 'at %s the start passed on is not the start the text was scanned from' % c.where()
+            hi_o = single_origin(trace_operand(h, rb[1], through_calls=set()))
+            if hi_o is None or hi_o.kind != 'callres' or hi_o.data.ruid != o1.data.ruid:
+                return '%s: the text ends at a different position function than the span' % h.name
+            for c2 in h.live_calls:
+                if c2.term['arg_tys'] and c2.term['arg_tys'][0].startswith('&mut ') and sm.adt['name'] in c2.term['arg_tys'][0] and c2.bb in h.reachable_after(hi_o.data.bb):
+                    return '%s advances after cutting the text' % h.name
+            if _advance_between(sm, cb, to.data.bb, c.bb):
+                return 'the caller advances the scanner between cutting the text and building the token'
+            continue
         if to is None or st is None or to.kind != 'callres' or st.kind != 'callres' or to.data.bb != st.data.bb or to.data.ruid is None:
             return 'at %s the text and the start do not come from one scanner call' % c.where()
         h = prog.by_id[to.data.ruid]
